@@ -274,12 +274,29 @@ impl Link for ss::ValueId {
             | Value::Proj(Proj(head, field)) => {
                 let head = head.link(statics);
                 return field.target.products.iter().fold(head, |head, projection| {
-                    Rc::new(Proj(head, projection.position).into())
+                    let index = ds::ProductIndex {
+                        position: projection.position,
+                        is_last: projection.position + 1
+                            == ProductArity::of(statics, projection.product),
+                    };
+                    Rc::new(Proj(head, index).into())
                 });
             }
             | Value::Lit(lit) => lit.to_owned().into(),
         };
         Rc::new(value)
+    }
+}
+
+/// The number of fields a product type denotes once its right spine is flattened.
+struct ProductArity;
+
+impl ProductArity {
+    fn of(statics: &StaticsArena, ty: ss::TypeId) -> usize {
+        match statics.normalized_at(ty) {
+            | Some(ss::Type::Prod(ss::Prod(_, tail))) => 1 + Self::of(statics, *tail),
+            | _ => 1,
+        }
     }
 }
 
